@@ -333,6 +333,9 @@ class PipeOps(FullOps):
 
             self.ev("raise_site", node, exc="TypeError", what="len() of a one-shot iterator")
             raise AbsRaise("TypeError", node, self.interp.where(node)[1])
+        if isinstance(v, SetV) and v.items is not None and any(isinstance(x, (SetV, ListV, DictV)) for x in v.items):
+            # a set of collections (`{frozenset(t.required_keys) for t in ts}`): how many of them are equal is a question about their contents
+            return self.unk("len() of a set of collections", node)
         if self.strict_atoms:
             if isinstance(v, ListV) and v.items is None and v.order is not None:
                 p = Poly()
